@@ -141,7 +141,8 @@ def enumerate_runs(ctx, G, nt, k, ops):
             per.append(alts or [(o, {}, None)])
         else:
             per.append([(o, {}, None)])
-    ov = {"memory_addr": addr_atom("m"), "byte_label": addr_atom("lb"), "word_label": addr_atom("lw")}
+    from units import address_overrides
+    ov = address_overrides(G)
     for combo in itertools.product(*per):
         choice = {}
         cur = []
